@@ -213,6 +213,12 @@ def tempo_shape(draw, d, tier="quick", n_min=1, n_max=None, allow_none=True, min
     # the thorough tier differs by its budgets and by longer runs at short memory
     mmax = MAX_M[d]
     n_cap = n_max or (8 if tier == "quick" else 12)
+    if n_max is None and d <= 3 and draw(st.integers(0, 9)) == 0:
+        # long runs at short memory (N >> dkmax): cheap, and the only place where a small per-step error can accumulate
+        N = draw(st.integers(20, 40))
+        K = draw(st.integers(max(1, min_dkmax), 2))
+        tau = draw(st.sampled_from([None, None, 0.0, "dt/2", "1.5dt", "3dt", "inf"]))
+        return N, K, tau
     N = draw(st.integers(n_min, n_cap))
     choices = []
     if allow_none and N <= mmax:
